@@ -61,6 +61,7 @@ type hist struct {
 	shape   string
 	seq     int
 	maxVals int
+	spareWallet map[*pk.Key]*pk.Key
 }
 
 func (h *hist) logf(f string, a ...interface{}) { h.trace = append(h.trace, fmt.Sprintf(f, a...)) }
@@ -232,7 +233,11 @@ func (h *hist) pickVoter(s *subject) (*pk.Key, string) {
 		return h.former[h.rng.Intn(len(h.former))], "former-validator"
 	case x < 24 && len(h.spare) > 0:
 		return h.spare[h.rng.Intn(len(h.spare))], "future-validator"
-	case x < 40 && len(voted) > 0:
+	case x < 32 && len(h.w.WalletKeys()) > 0:
+		// the account that registered a current validator's node: it is not a consensus validator
+		wk := h.w.WalletKeys()
+		return wk[h.rng.Intn(len(wk))], "validator-wallet"
+	case x < 46 && len(voted) > 0:
 		return voted[h.rng.Intn(len(voted))], "repeat-voter"
 	case len(fresh) > 0:
 		return fresh[h.rng.Intn(len(fresh))], "validator"
@@ -255,7 +260,7 @@ func (h *hist) epochChange() {
 	if add {
 		k := h.spare[0]
 		h.spare = h.spare[1:]
-		if err := h.w.AddValidator(k); err != nil {
+		if err := h.w.AddValidatorBy(k, h.spareWallet[k]); err != nil {
 			h.r.Inconclusive("add validator: " + err.Error())
 			h.bad = true
 			return
@@ -328,6 +333,8 @@ type tplT struct {
 	spare []*pk.Key
 	outs  []*pk.Key
 	uses  int
+	// wallet accounts that register some of the spare keys when they become validators
+	spareWallet map[*pk.Key]*pk.Key
 }
 
 var pool = map[int]*tplT{}
@@ -340,7 +347,16 @@ func template(r *kit.Run, n int, gen int) *tplT {
 	}
 	krng := r.Rand(fmt.Sprintf("keys-%d-%d", n, gen))
 	owner := pk.NewKey(krng)
-	w, err := cs.NewWorld(config.NETWORK_ID_MAIN_NET, pk.NewKeys(krng, n), owner)
+	// every second validator's pool entry is registered by a separate wallet account (registered
+	// address != address of the node key), as on a live network; the wallets are not validators
+	vals := pk.NewKeys(krng, n)
+	wallets := make([]*pk.Key, n)
+	for i := range wallets {
+		if i%2 == 1 {
+			wallets[i] = pk.NewKey(krng)
+		}
+	}
+	w, err := cs.NewWorldWallets(config.NETWORK_ID_MAIN_NET, vals, wallets, owner)
 	if err != nil {
 		r.Inconclusive("world: " + err.Error())
 		return nil
@@ -356,7 +372,12 @@ func template(r *kit.Run, n int, gen int) *tplT {
 		r.Inconclusive("registerAsset: " + rec.Err)
 		return nil
 	}
-	t = &tplT{w: w, snap: w.Snapshot(), spare: pk.NewKeys(krng, 4), outs: pk.NewKeys(krng, 3), uses: 1}
+	t = &tplT{w: w, snap: w.Snapshot(), spare: pk.NewKeys(krng, 4), outs: pk.NewKeys(krng, 3), uses: 1, spareWallet: map[*pk.Key]*pk.Key{}}
+	for i, k := range t.spare {
+		if i%2 == 0 {
+			t.spareWallet[k] = pk.NewKey(krng)
+		}
+	}
 	pool[n] = t
 	r.Count("universes_built", 1)
 	return t
@@ -368,7 +389,7 @@ func runHistory(r *kit.Run, rng *rand.Rand, n0, maxVals, idx int) {
 		return
 	}
 	t.w.Restore(t.snap)
-	h := &hist{r: r, rng: rng, w: t.w, vm: cs.NewVoteModel(), spare: append([]*pk.Key{}, t.spare...), outs: t.outs, maxVals: maxVals}
+	h := &hist{r: r, rng: rng, w: t.w, vm: cs.NewVoteModel(), spare: append([]*pk.Key{}, t.spare...), outs: t.outs, maxVals: maxVals, spareWallet: t.spareWallet}
 	t.w.E.Height = 100 + uint32(rng.Intn(30000000))
 	// node-local configuration is a dimension: a quarter of the histories run with the event log off
 	config.DefConfig.Common.EnableEventLog = rng.Intn(4) != 0
@@ -458,7 +479,7 @@ func quittingWindow(r *kit.Run) {
 func TestC25(t *testing.T) {
 	r := kit.Start(t, "C25", "exploration")
 	defer r.Finish()
-	r.Rule("histories of 30+3N calls on main-net id over several concurrently open subjects on four vote-counting entry points (VOTE-router import, ripple-router import, addSignature, updateFee); voters: validators that have not voted, repeat voters, outsiders, former validators, future validators; validator-set changes (add / remove through node_manager + commitDpos) between votes at rate 0, 8% or 20%; initial N = 4..10 (thorough ..25); distinct = (initial N, sequence of model verdicts and epoch changes)")
+	r.Rule("histories of 30+3N calls on main-net id over several concurrently open subjects on four vote-counting entry points (VOTE-router import, ripple-router import, addSignature, updateFee); voters: validators that have not voted, repeat voters, outsiders, former validators, future validators, the wallet accounts that registered validators' nodes (every second pool entry has a registered address different from the node-key address, in the genesis configuration and for candidates registered later); validator-set changes (add / remove through node_manager + commitDpos) between votes at rate 0, 8% or 20%; initial N = 4..10 (thorough ..25); distinct = (initial N, sequence of model verdicts and epoch changes)")
 	rng := r.Rand("histories")
 	nh := r.N(400, 8000)
 	maxN := r.N(10, 25)
@@ -468,6 +489,7 @@ func TestC25(t *testing.T) {
 	}
 	quittingWindow(r)
 	r.Assume("DESIGN §8 reading: with a changing validator set the release point is the first call by a current validator after which the number of distinct current validators who voted is >= ceil(2N/3), N and 'current' taken at the time of that call; a repeat voter can therefore trigger the release after the set shrank")
+	r.Assume("a consensus validator is identified by the address derived from its node public key; the account that registered the node (PeerPoolItem.Address) is an outsider unless it is that same address")
 	r.Assume("an outsider's call must neither count nor change state; whether it returns an error or a no-op success is recorded, not judged (after the release the vote router answers success without effect to anybody)")
 	r.Assume("addSignature may still store a validator's signature after the quorum event (the property only limits the event); the other entry points must not change state after the release")
 	r.Assume("validator-set changes are atomic in the histories (quitNode/approveCandidate immediately followed by commitDpos); the window between quitNode and commitDpos is recorded as an observation only")
@@ -482,6 +504,7 @@ func TestC25(t *testing.T) {
 	r.Require("histories_with_event_log_disabled", n/8)
 	r.Require("voter:repeat-voter", n)
 	r.Require("voter:former-validator", n/4)
+	r.Require("voter:validator-wallet", n)
 	r.Require("released_by:repeat-voter", n/12) // release triggered by a repeat voter after the set shrank
 	r.Require("epoch_add", n/4)
 	r.Require("epoch_remove", n/4)
